@@ -250,6 +250,18 @@ func checkC12(c *Ctx) *report.Result {
 			a, _ := step(w)
 			tima := c.cellInt(a, tm, ".tima")
 			r.Ob("W-window", exactly(tima, s), tag+": a TIMA write in the 00 cycle cancels the reload", where, "TIMA after cycle A "+ai.ValueString(tima))
+			// ... and with it the reload cycle: in the cycle after a cancelled reload a TIMA write is stored and a
+			// TMA write stays in TMA (there is no reload cycle to ignore the one or forward the other)
+			v5, s5 := newV("tima-after-cancel")
+			c1 := doWrite(a, wTIMA, v5)
+			c1e, _ := step(c1)
+			t5 := c.cellInt(c1e, tm, ".tima")
+			r.Ob("W-window", exactly(t5, s5), tag+": after a cancelled reload the next cycle's TIMA write is stored", firstPos(c, wTIMA), "TIMA after that write and the cycle's end "+ai.ValueString(t5)+"; documented: the written value (only the cycle of an actual reload ignores TIMA writes)")
+			v6, _ := newV("tma-after-cancel")
+			c2 := doWrite(a, wTMA, v6)
+			c2e, _ := step(c2)
+			t6 := c.cellInt(c2e, tm, ".tima")
+			r.Ob("W-window", exactly(t6, s), tag+": after a cancelled reload a TMA write does not reach TIMA", firstPos(c, wTMA), "TIMA at the end of that cycle "+ai.ValueString(t6)+"; documented: still the value written in the 00 cycle")
 		}
 	}
 
